@@ -44,6 +44,7 @@ type Entry struct {
 	Audit    string // non-empty: structural problem found in the delivered tree
 	Reach    int    // nodes reachable from the record (root via Parent, then descendants)
 	ReachE   int    // same, ignoring text nodes hanging directly off proper ancestors
+	Retained int    // Retained(transform) right after this record was delivered (0: not measured)
 	Shape    string // why the result is malformed
 	Stack    string // panic stack
 	raw      []byte // the slice Read returned (to detect later modification)
@@ -128,6 +129,9 @@ type Opts struct {
 	MaxReads     int  // stop after this many Reads (0: 2*len(input)+64)
 	Audit        bool // audit each delivered tree
 	Measure      bool // measure reachable size
+	// RetainedAt tells after which delivered records (1-based count of records) what the Transform
+	// retains is measured (nil: never)
+	RetainedAt func(delivered int) bool
 	NoRaw        bool // skip RawRecord (C01 drives its own history)
 	Exts         []omniparser.Extension
 	Between      func() // called between API calls (scheduler hand-off)
@@ -302,6 +306,7 @@ func DriveSchema(schema omniparser.Schema, w *world.World, rd io.Reader, o Opts,
 	if max <= 0 {
 		max = 2*len(w.Input) + 64
 	}
+	delivered := 0
 	for i := 0; ; i++ {
 		if i >= max {
 			tr.HitReadLimit = true
@@ -311,6 +316,12 @@ func DriveSchema(schema omniparser.Schema, w *world.World, rd io.Reader, o Opts,
 			o.Between()
 		}
 		e := ReadOnce(t)
+		if e.Class == ClsRecord {
+			delivered++
+			if o.RetainedAt != nil && o.RetainedAt(delivered) {
+				e.Retained = Retained(t)
+			}
+		}
 		if e.Class == ClsRecord && !o.NoRaw {
 			rr, err, p := RawOnce(t)
 			switch {
